@@ -27,8 +27,14 @@ theorem pur_asTok {v : Val} (h : HasTy E .tok v) : Pur env (asTok v) (fun _ => T
   obtain ⟨n, rfl⟩ := (hasTy_tok E v).mp h; exact Pur.pure _ trivial
 theorem pur_asStr {v : Val} (h : HasTy E .str v) : Pur env (asStr v) (fun _ => True) := by
   obtain ⟨n, rfl⟩ := (hasTy_str E v).mp h; exact Pur.pure _ trivial
-theorem pur_asTy {v : Val} (h : HasTy E .ty v) : Pur env (asTy v) (fun _ => True) := by
-  obtain ⟨n, rfl⟩ := (hasTy_ty E v).mp h; exact Pur.pure _ trivial
+theorem pur_asTy {v : Val} (h : HasTy E .ty v) : Pur env (asTy v) TyWF := by
+  obtain ⟨n, rfl, hn⟩ := (hasTy_ty E v).mp h; exact Pur.pure _ hn
+theorem pur_asArgV {v : Val} (h : HasTy E .arg v) : Pur env (asArgV v) (fun a => TyWF a.argType) := by
+  obtain ⟨n, rfl, hn⟩ := (hasTy_arg E v).mp h; exact Pur.pure _ hn
+theorem pur_asIelV {v : Val} (h : HasTy E .iel v) : Pur env (asIelV v) (fun e => ∀ t ∈ e.topTypes, TyWF t) := by
+  obtain ⟨n, rfl, hn⟩ := (hasTy_iel E v).mp h; exact Pur.pure _ hn
+theorem pur_asPelV {v : Val} (h : HasTy E .pel v) : Pur env (asPelV v) (fun e => ∀ t ∈ e.topTypes, TyWF t) := by
+  obtain ⟨n, rfl, hn⟩ := (hasTy_pel E v).mp h; exact Pur.pure _ hn
 
 theorem pur_locAt {tys : List ATy} {args : List ArgV} (h : ArgsTyped E tys args) {i : Nat}
     (ht : tys[i]? = some (.triple .loc)) : Pur env (locAt args i) (fun _ => True) := by
@@ -116,9 +122,10 @@ theorem pur_flattenOptsNS {t : VTy} {v : Val} (h : HasTy E (.list (.optNS t)) v)
   obtain ⟨o, ho, hox⟩ := List.mem_filterMap.mp hx
   exact hos o ho x hox
 
-theorem pur_simpleType (name : String) (k : TypeKind) (a b : Nat) : Pur env (simpleType name k a b) (HasTy E .ty) := by
+theorem pur_simpleType (name : String) (k : TypeKind) (a b : Nat) (hk : k ≠ .array) :
+    Pur env (simpleType name k a b) (HasTy E .ty) := by
   unfold simpleType
-  exact Pur.bind (pur_mkRange a b) (fun _ _ => Pur.pure _ trivial)
+  exact Pur.bind (pur_mkRange a b) (fun _ _ => Pur.pure _ (TyWF.leaf _ _ _ _ hk))
 
 
 /-! ### computations that may append diagnostics -/
@@ -254,6 +261,10 @@ theorem tri_recovery (msg : String) (t : VTy) (ds : List Diag) (args : List ArgV
 macro "tgood" : tactic => `(tactic| first
   | trivial
   | assumption
+  | exact TyWF.array _ _ _ _ (by assumption)
+  | exact TyWF.list1 _ _ _ _ (by assumption)
+  | exact TyWF.map2 _ _ _ _ _ (by assumption) (by assumption)
+  | exact TyWF.leaf _ _ _ _ (by decide)
   | solve_by_elim
   | (simp only [hasTy_tok, hasTy_loc, hasTy_str, hasTy_package, hasTy_import_, hasTy_ty, hasTy_dir, hasTy_ann, hasTy_arg,
        hasTy_method, hasTy_const, hasTy_field, hasTy_enumEl, hasTy_iel, hasTy_pel, hasTy_iface, hasTy_parc, hasTy_enm,
@@ -279,7 +290,7 @@ macro "tstep" : tactic => `(tactic| first
   | with_reducible refine pur_bind_pure ?_
   | with_reducible refine Pur.bind (Pur.map (pur_asStr (by with_unfolding_all tgood)) (fun _ _ => trivial) (Q := fun _ => True)) (fun _ _ => ?_)
   | with_reducible refine Pur.bind (Pur.mapM _ (P := fun _ => True) _ (fun _ _ => ?_)) (fun _ _ => ?_)
-  | with_reducible exact pur_simpleType _ _ _ _
+  | exact pur_simpleType _ _ _ _ (by decide)
   | with_reducible refine Pur.pure _ ?_
   | (with_reducible refine Pur.bad _ _ ?_ ?_ ?_) <;> decide)
 
@@ -380,6 +391,9 @@ theorem tact_25 (env : Env) (E : Prop) (args : List ArgV)
     Pur env (userAction 25 args) (HasTy E .iface) := by
   unfold userAction
   simp only []
+  refine Pur.bind (pur_nth h rfl) (fun v hv => ?_)
+  refine Pur.bind (pur_flattenOptsNS hv) (fun l hl => ?_)
+  refine Pur.bind (Pur.mapM (P := fun e => ∀ t ∈ e.topTypes, TyWF t) _ l (fun a ha => pur_asIelV (hl a ha))) (fun els hels => ?_)
   tauto'
 
 set_option maxRecDepth 10000 in
@@ -388,7 +402,15 @@ theorem tact_26 (env : Env) (E : Prop) (args : List ArgV)
     Pur env (userAction 26 args) (HasTy E (.optNS .iel)) := by
   unfold userAction
   simp only []
-  tauto'
+  refine Pur.bind (pur_nth h rfl) (fun v hv => ?_)
+  obtain ⟨m, rfl, hm⟩ := (hasTy_method E v).mp hv
+  refine Pur.pure _ ?_
+  show ∀ t ∈ (InterfaceElement.method m).topTypes, TyWF t
+  intro t ht
+  simp only [InterfaceElement.topTypes, Method.topTypes, List.mem_cons, List.mem_map] at ht
+  rcases ht with rfl | ⟨a, ha, rfl⟩
+  · exact hm.1
+  · exact hm.2 a ha
 
 set_option maxRecDepth 10000 in
 theorem tact_27 (env : Env) (E : Prop) (args : List ArgV)
@@ -396,7 +418,14 @@ theorem tact_27 (env : Env) (E : Prop) (args : List ArgV)
     Pur env (userAction 27 args) (HasTy E (.optNS .iel)) := by
   unfold userAction
   simp only []
-  tauto'
+  refine Pur.bind (pur_nth h rfl) (fun v hv => ?_)
+  obtain ⟨c, rfl, hc⟩ := (hasTy_const E v).mp hv
+  refine Pur.pure _ ?_
+  show ∀ t ∈ (InterfaceElement.const c).topTypes, TyWF t
+  intro t ht
+  simp only [InterfaceElement.topTypes, List.mem_cons, List.not_mem_nil, or_false] at ht
+  subst ht
+  exact hc
 
 set_option maxHeartbeats 4000000 in
 set_option maxRecDepth 10000 in
@@ -405,6 +434,9 @@ theorem tact_29 (env : Env) (E : Prop) (args : List ArgV)
     Pur env (userAction 29 args) (HasTy E .parc) := by
   unfold userAction
   simp only []
+  refine Pur.bind (pur_nth h rfl) (fun v hv => ?_)
+  refine Pur.bind (pur_flattenOptsNS hv) (fun l hl => ?_)
+  refine Pur.bind (Pur.mapM (P := fun e => ∀ t ∈ e.topTypes, TyWF t) _ l (fun a ha => pur_asPelV (hl a ha))) (fun els hels => ?_)
   tauto'
 
 set_option maxRecDepth 10000 in
@@ -413,7 +445,14 @@ theorem tact_30 (env : Env) (E : Prop) (args : List ArgV)
     Pur env (userAction 30 args) (HasTy E (.optNS .pel)) := by
   unfold userAction
   simp only []
-  tauto'
+  refine Pur.bind (pur_nth h rfl) (fun v hv => ?_)
+  obtain ⟨f, rfl, hf⟩ := (hasTy_field E v).mp hv
+  refine Pur.pure _ ?_
+  show ∀ t ∈ (ParcelableElement.field f).topTypes, TyWF t
+  intro t ht
+  simp only [ParcelableElement.topTypes, List.mem_cons, List.not_mem_nil, or_false] at ht
+  subst ht
+  exact hf
 
 set_option maxRecDepth 10000 in
 theorem tact_31 (env : Env) (E : Prop) (args : List ArgV)
@@ -421,7 +460,14 @@ theorem tact_31 (env : Env) (E : Prop) (args : List ArgV)
     Pur env (userAction 31 args) (HasTy E (.optNS .pel)) := by
   unfold userAction
   simp only []
-  tauto'
+  refine Pur.bind (pur_nth h rfl) (fun v hv => ?_)
+  obtain ⟨c, rfl, hc⟩ := (hasTy_const E v).mp hv
+  refine Pur.pure _ ?_
+  show ∀ t ∈ (ParcelableElement.const c).topTypes, TyWF t
+  intro t ht
+  simp only [ParcelableElement.topTypes, List.mem_cons, List.not_mem_nil, or_false] at ht
+  subst ht
+  exact hc
 
 set_option maxHeartbeats 4000000 in
 set_option maxRecDepth 10000 in
@@ -440,6 +486,7 @@ theorem tact_34 (env : Env) (E : Prop) (args : List ArgV)
   simp only []
   tauto'
 
+set_option maxHeartbeats 4000000 in
 set_option maxRecDepth 10000 in
 theorem tact_37 (env : Env) (E : Prop) (args : List ArgV)
     (h : ArgsTyped E [.triple .loc, .triple .dir, .triple (.list .ann), .triple .ty, .triple .loc, .triple (.opt .tok), .triple .loc] args) :
@@ -684,7 +731,10 @@ theorem tact_36 (env : Env) (E : Prop) (args : List ArgV)
     PurE env (userAction 36 args) (HasTy E .method) := by
   unfold userAction
   simp only []
+  refine PurE.bind (PurE.of_pur (pur_nth h rfl)) (fun v hv => ?_)
+  refine PurE.bind (PurE.of_pur (pur_asList hv)) (fun l hl => ?_)
+  refine PurE.bind (PurE.of_pur (Pur.mapM (P := fun a => TyWF a.argType) _ l (fun a ha => pur_asArgV (hl a ha)))) (fun margs hmargs => ?_)
   tautoE
-  all_goals (exfalso; rename_i hex; obtain ⟨_, _, rfl, ⟨_, rfl⟩, ⟨_, rfl⟩⟩ := hex; solve_by_elim)
+  all_goals (rename_i hneg _ hex; obtain ⟨_, _, rfl, ⟨_, rfl⟩, ⟨_, rfl⟩⟩ := hex; exact hneg _ _ rfl)
 
 end Aidl.Props.Typed
